@@ -694,6 +694,11 @@ func (ps *sqlParser) primary() *sqlExpr {
 			return &sqlExpr{k: "lit-int", s: "1"}
 		case "FALSE":
 			return &sqlExpr{k: "lit-int", s: "0"}
+		case "EXISTS":
+			ps.expectOp("(")
+			sub := ps.selectStmt()
+			ps.expectOp(")")
+			return &sqlExpr{k: "exists", sub: sub}
 		case "REPLACE":
 			// function replace() unsupported
 		case "CASE":
